@@ -4,7 +4,7 @@ S=$(realpath "$1"); P=$2; shift 2
 cd /repo || exit 2
 if ! git diff --quiet; then echo "/repo has uncommitted changes"; exit 2; fi
 git apply "$S/patch.diff" || { echo "patch does not apply"; exit 2; }
-cd /verif && bin/check $P "$@" > $S/check_$P.log 2>&1; rc=$?
+cd /verif && VERIF_EVID_DIR=/verif/.build/seed_evidence bin/check $P "$@" > $S/check_$P.log 2>&1; rc=$?
 git -C /repo checkout -- .
 echo "$(basename $S) vs $P: exit $rc; $(grep -c '^VIOLATION' $S/check_$P.log) VIOLATION lines; $(grep '^== ' $S/check_$P.log | tail -1)"
 grep -A1 "^VIOLATION" $S/check_$P.log | grep harness | cut -c1-260 | head -4
